@@ -196,8 +196,8 @@ Rich(k) ==
 
 (* the small context family placed before / after *)
 Ctx ==
-  {Lit("x\n\ny\n"), Output(St1, V("u"))}
-  \cup (IF Level = 1 THEN {} ELSE {Lit("ab"), LiquidOf(St1, 1, <<LEchoV("v")>>), CatAll(<<Bare(St3, "tag", "comment"), Lit(" {{ z }}\n"), Bare(St1, "itag", "endcomment")>>),
+  {Lit("x\n\ny\n"), Output(St1, V("u")), LiquidOf(St1, 1, <<LEchoV("v")>>)}
+  \cup (IF Level = 1 THEN {} ELSE {Lit("ab"), CatAll(<<Bare(St3, "tag", "comment"), Lit(" {{ z }}\n"), Bare(St1, "itag", "endcomment")>>),
                                    Tag(St3, "tag", "assign", CatAll(<<Name("local", "w"), Lit(" = "), V("u")>>))})
 
 -----------------------------------------------------------------------------
@@ -277,10 +277,10 @@ BadFamily(k) == UNION { BadSegs(st) : st \in Styles2 \cup {St2, St4} } \cup BadL
 -----------------------------------------------------------------------------
 (* the i-th segment taken from the full family names its partials p<i>, q<i>, r<i>. Constant-level *)
 (* definitions, so that TLC evaluates each family once.                                             *)
-Rich1 == Rich("1")
-Rich2 == Rich("2")
-Rich3 == Rich("3")
-Bad1 == BadFamily("1")
+Rich1 == IF Family = "spans" THEN Rich("1") ELSE {}
+Rich2 == IF Family = "spans" /\ MaxRich >= 2 THEN Rich("2") ELSE {}
+Rich3 == IF Family = "spans" /\ MaxRich >= 3 THEN Rich("3") ELSE {}
+Bad1 == IF Family = "errors" THEN BadFamily("1") ELSE {}
 FullFamily(i) == IF Family = "spans" THEN (CASE i = 1 -> Rich1 [] i = 2 -> Rich2 [] OTHER -> Rich3) ELSE Bad1
 ASSUME MaxRich <= 3 /\ (Family = "errors" => MaxRich = 1)
 
